@@ -2,7 +2,7 @@
 META = {
     "level": 'exploration',
     "technique": 'policy oracle from docs/garbage-collection.rst on the real LeaseCheckingCrawler: every expiry configuration x shares whose leases were renewed at threshold +-{1 s, 1 day, 1 year}, virtual clock, one forced full crawl cycle (and a second one two years later)',
-    "text": 'Creates real share files through the real StorageServer (immutable: allocate_buckets/write/close, mutable: slot_testv_and_readv_and_writev) with 0..5 leases each, added and renewed through add_lease/renew_lease/allocate_buckets at chosen instants of a virtual clock (epoch ~1.7e9; the clock drives StorageServer(clock=...) and the `time` global of storage.expirer/lease/crawler). Enumerates all 88 policy configurations: expiration enabled/disabled x (age mode with override None/1d/10d/31d/60d/400d | cutoff-date mode with cutoff now-400d/-40d/-31d/-1d/+1d) x share types (both, mutable, immutable, none). The real lease crawler then runs exactly one full cycle (start_slice with an unbounded cpu_slice). Oracle (the statement): disabled => every share still present and readable; enabled => a share whose type is not enabled or that holds at least one lease that is not expired (age: renewal + duration >= now; cutoff: renewal >= cutoff) is still present with its data intact, and a share of an enabled type all of whose (>=1) leases are expired is gone. Renewal exactly at the threshold instant, zero-lease shares and leases that share a cancel secret are generated, counted and not judged. A second cycle two years later re-judges the survivors.',
+    "text": 'Creates real share files through the real StorageServer (immutable: allocate_buckets/write/close, mutable: slot_testv_and_readv_and_writev) with 0..5 leases each, added and renewed through add_lease/renew_lease/allocate_buckets at chosen instants of a virtual clock (epoch ~1.7e9; the clock drives StorageServer(clock=...) and the `time` global of storage.expirer/lease/crawler). Enumerates all 88 policy configurations: expiration enabled/disabled x (age mode with override None/1d/10d/31d/60d/400d | cutoff-date mode with cutoff now-400d/-40d/-31d/-1d/+1d) x share types (both, mutable, immutable, none). The real lease crawler then runs exactly one full cycle (start_slice with an unbounded cpu_slice). Oracle (the statement): disabled => every share still present and readable; enabled => a share whose type is not enabled or that holds at least one lease that is not expired (age: renewal + duration >= now; cutoff: renewal >= cutoff) is still present with its data intact, and a share of an enabled type all of whose (>=1) leases are expired is gone. Buckets holding 2..4 shares (uploaded together) get ONE share file damaged before the crawl (bad version magic, truncated header, zero length), the victim taken at every os.listdir position in turn: the healthy shares listed before and after it are judged as usual. Renewal exactly at the threshold instant, zero-lease shares, damaged share files themselves and leases that share a cancel secret are generated, counted and not judged. A second cycle two years later re-judges the survivors.',
     "note": 'Trusts the 10-line expiry predicate and the virtual clock shim. Presence is observed through StorageServer.get_shares() and reads through get_buckets()/slot_readv(). One crawl cycle without restarts (restart behaviour is C27).',
 }
 LEVEL = "exploration"
@@ -74,6 +74,11 @@ class Share(object):
         self.tag = ""
         self.shared_cancel = False
         self.sibling_of = None      # another Share in the same bucket
+        self.group = None           # head of a multi-share bucket: [member Shares incl. itself]
+        self.damage_at = None       # head: (os.listdir position of the victim, kind of damage)
+        self.damaged = None         # member: kind of damage applied to its file
+        self.in_damaged_bucket = False
+        self.listed_after_victim = False
 
 
 def secrets(share_idx, lease_id, shared_cancel=False):
@@ -166,6 +171,28 @@ def build_population(cfg, now, rng, tier, shared_cancel_only=False):
         b.sibling_of = a
         b.tag = "bucket-with-two-shares"
         shares.append(b)
+    # buckets with 2..4 shares uploaded together, ONE share file damaged before the crawl, the victim chosen by
+    # its position in os.listdir(bucketdir) (every position in turn): the healthy shares listed before and after
+    # it are judged as usual, the damaged one is not judged
+    damages = ("bad-version-magic", "truncated-header", "zero-length")
+    for k in kinds:
+        for n in (2, 3, 4):
+            for pos in range(n):
+                profiles = [(-YEAR, "expired")] + ([(DAY, "valid")] if n == 2 else [])
+                for d0, pname in profiles:
+                    head = new(k, [], "bucket-of-%d-with-damaged-share-%s" % (n, pname))
+                    head.grants.append((at(d0), 0, "create-group"))
+                    head.group = [head]
+                    head.damage_at = (pos, damages[(n + pos + (k == "mutable")) % 3])
+                    for j in range(1, n):
+                        m = Share(len(shares), k, shnum=j)
+                        m.si = head.si
+                        m.sibling_of = head
+                        m.tag = head.tag
+                        head.group.append(m)
+                        shares.append(m)
+                    for m in head.group:
+                        m.in_damaged_bucket = True
     return shares
 
 
@@ -180,7 +207,7 @@ def run(ck):
                "cutoff-date: now-400d/-40d/-31d/-1d/+1d} x sharetypes both/mutable/immutable/none), each with ~100 real "
                "shares (immutable and mutable) holding 0..5 leases whose last renewal is threshold + {-1y,-1d,-1s,0,+1s,"
                "+1d,+1y} (all-expired, exactly-one-valid at each position, all-valid, renewed-later, two shares in one "
-               "bucket, seeded random sets); leases are granted in chronological order on a virtual clock, then one full "
+               "bucket, buckets of 2..4 shares with one damaged file at each listdir position, seeded random sets); leases are granted in chronological order on a virtual clock, then one full "
                "crawl cycle runs at `now` and another at now+2y. distinct = (configuration, share kind, renewal offsets); "
                "non-trivial = expiration enabled and at least one expired lease on the share")
     saved = (expirer_mod.time, lease_mod.time, crawler_mod.time)
@@ -198,6 +225,10 @@ def run(ck):
         return share.shnum in dict(ss.get_shares(share.si))
 
     def read_back(ss, share):
+        if share.kind == "immutable" and share.in_damaged_bucket:
+            # get_buckets() opens every share of the bucket and would trip over the damaged one
+            fn = dict(ss.get_shares(share.si)).get(share.shnum)
+            return None if fn is None else ShareFile(fn).read_share_data(0, len(share.data))
         if share.kind == "immutable":
             b = ss.get_buckets(share.si)
             if share.shnum not in b:
@@ -232,7 +263,7 @@ def run(ck):
             shares = build_population(cfg, now, ck.rng("pop", ci, ck.seed), ck.tier, shared_only)
             if (not cfg["enabled"] or not cfg["sharetypes"]) and ck.tier == "quick":
                 # nothing may ever be deleted here whatever the leases: a third of the population is enough
-                keep = [s for i, s in enumerate(shares) if i % 3 == ci % 3 or s.tag == "bucket-with-two-shares"]
+                keep = [s for i, s in enumerate(shares) if i % 3 == ci % 3 or s.tag.startswith("bucket-")]
                 shares = keep
             # ---- chronological lease plan on the virtual clock
             events = []
@@ -268,6 +299,20 @@ def run(ck):
                         assert ok
                         if how == "create":
                             s.leases[lid] = t
+                elif how == "create-group":
+                    rs, cs = secrets(s.idx, lid)
+                    if s.kind == "immutable":
+                        got, wr = ss.allocate_buckets(s.si, rs, cs, set(m.shnum for m in s.group), len(s.data))
+                        for m in s.group:
+                            wr[m.shnum].write(0, m.data)
+                            wr[m.shnum].close()
+                    else:
+                        ok, _ = ss.slot_testv_and_readv_and_writev(
+                            s.si, (b"W" * 32, rs, cs),
+                            {m.shnum: ([], [(0, m.data)], None) for m in s.group}, [])
+                        assert ok
+                    for m in s.group:
+                        m.leases[lid] = t
                 elif how in ("add", "add_lease"):
                     rs, cs = secrets(s.idx, lid, s.shared_cancel)
                     ss.add_lease(s.si, rs, cs)
@@ -289,6 +334,29 @@ def run(ck):
                     s.leases[lid] = t
                     sib.leases[lid] = t
             clock.advance(now - clock.seconds())
+            # ---- damage one share file per multi-share bucket, chosen by its os.listdir position
+            for s in shares:
+                if s.group is None:
+                    continue
+                bucketdir = os.path.join(ss.sharedir, storage_index_to_dir(s.si))
+                names = [n for n in os.listdir(bucketdir) if n.isdigit()]
+                pos, kind = s.damage_at
+                victim = int(names[pos])
+                for m in s.group:
+                    if m.shnum == victim:
+                        m.damaged = kind
+                    m.listed_after_victim = names.index("%d" % m.shnum) > pos
+                fn = os.path.join(bucketdir, names[pos])
+                with open(fn, "rb+") as f:
+                    if kind == "bad-version-magic":
+                        f.write(b"\xff\xff\xff\xfe")
+                    elif kind == "truncated-header":
+                        f.truncate(5)
+                    else:
+                        f.truncate(0)
+                if os.listdir(bucketdir) != os.listdir(bucketdir) or \
+                        [n for n in os.listdir(bucketdir) if n.isdigit()] != names:
+                    ck.observe("listdir-order-changed-after-damage")
             # sanity of the workload itself: every share is there before the crawl
             for s in shares:
                 if not present(ss, s):
@@ -333,7 +401,16 @@ def run(ck):
                            "lease_age_days": sorted(round((when - r) / DAY, 3) for r in s.leases.values()),
                            "lease_status": stats, "present_after_cycle": here}
                     key = (ci, s.kind, s.tag, tuple(offs), cycle_no)
+                    if s.in_damaged_bucket:
+                        head = s.sibling_of or s
+                        key = key + (s.shnum, head.damage_at)
+                        wit["bucket"] = {"shares": len(head.group), "damaged_listdir_position": head.damage_at[0],
+                                         "damage": head.damage_at[1], "this_share_listed_after_it": s.listed_after_victim}
                     nontrivial = cfg["enabled"] and "expired" in stats
+                    if s.damaged:
+                        ck.skip("damaged-share-file")
+                        ck.case("damaged-share", key=key + (s.damaged,), nontrivial=False)
+                        continue
                     if not s.leases:
                         ck.observe("zero-lease-share-kept" if here else "zero-lease-share-deleted")
                         ck.skip("zero-lease-share")
@@ -373,6 +450,9 @@ def run(ck):
                     elif must_delete:
                         cls = "all-expired"
                         ck.hit("all-leases-expired")
+                        if s.in_damaged_bucket:
+                            ck.hit("expired-share-listed-after-damaged-share" if s.listed_after_victim
+                                   else "expired-share-listed-before-damaged-share")
                         if here:
                             kept_expired.append(("%s share (%s) with every lease expired (%s) still present after full "
                                                  "cycle %d" % (s.kind, s.tag, describe(cfg), cycle_no), wit))
@@ -423,7 +503,8 @@ def run(ck):
     ck.exhaustive = False      # configurations are enumerated completely, lease sets are structured + sampled
     ck.require_monitor("expiry-oracle", "survivor-data-oracle")
     ck.require_reach("full-cycle-completed", "all-leases-expired", "valid-lease-among-expired",
-                     "sharetype-filter-decides", "lease-renewed-through-renew_lease",
+                     "sharetype-filter-decides", "expired-share-listed-after-damaged-share",
+                     "expired-share-listed-before-damaged-share", "lease-renewed-through-renew_lease",
                      "lease-renewed-through-add_lease")
 
 
